@@ -130,9 +130,10 @@ def _apply(wallet, op):
         if op[0] == "ckd":
             return node_repr(wallet.master.ckd(op[1]))
         if op[0] == "generate_children":
-            return [node_repr(n) for n in wallet.master.derive_path([0]).generate_children(op[1])]
+            # on the SHARED master node: concurrent requests append to the same children list
+            return [node_repr(n) for n in wallet.master.generate_children(op[1])]
         if op[0] == "gen":
-            node = wallet.master.derive_path([1])
+            node = wallet.master
             g = wallet.address_generator(node)
             res = [next(g)]
             for s in op[1]:
@@ -151,7 +152,7 @@ def _apply(wallet, op):
 def history(item):
     from btc_hd_wallet import PaperWallet
     rng = random.Random(item.get("seed", 0) * 7 + 13)
-    rounds = 12 if item.get("tier") == "quick" else 150
+    rounds = 15 if item.get("tier") == "quick" else 150
     bad = None
     evals = 0
     for r in range(rounds):
@@ -163,14 +164,27 @@ def history(item):
         results = [None] * len(ops)
         if threaded:
             import sys
+            import time as _time
+            import btc_hd_wallet.bip32 as _b32
             old = sys.getswitchinterval()
             sys.setswitchinterval(1e-5)
+            _real_hmac = _b32.hmac_sha512
+
+            def _yielding_hmac(key, msg):
+                # pass-through PRF that gives the other threads a turn at every derivation step, so that
+                # requests on shared nodes really interleave (the result of each call is unchanged)
+                _time.sleep(0.0004)
+                r = _real_hmac(key=key, msg=msg)
+                _time.sleep(0.0004)
+                return r
+            _b32.hmac_sha512 = _yielding_hmac
             ths = [threading.Thread(target=lambda i=i: results.__setitem__(i, _apply(shared, ops[i]))) for i in range(len(ops))]
             for t in ths:
                 t.start()
             for t in ths:
                 t.join()
             sys.setswitchinterval(old)
+            _b32.hmac_sha512 = _real_hmac
         else:
             for i, op in enumerate(ops):
                 results[i] = _apply(shared, op)
